@@ -120,3 +120,45 @@ func VH_C18_prove(N int, j int, cp int) {
 	zzvrt.Cover("proved", true)
 	zzvrt.ObserveInt("proof-len", len(proof))
 }
+
+// Key widths that are not a multiple of 8 (12-bit keys): a present key is proved with its value, and
+// EVERY absent key is refused - in particular one that differs from a present key only in the last
+// width%8 bits.  N symbolic distinct keys (1..2; cp = number of common leading bits of the two keys).
+func VH_C18_prove_uint12(N int, cp int) {
+	var h Hashmap[Uint12, Uint8]
+	var keys [2]Uint12
+	var vals [2]Uint8
+	for i := 0; i < N; i++ {
+		keys[i] = Uint12(zzvrt.NondetU16("key") & 0xfff)
+		vals[i] = Uint8(zzvrt.NondetByte("val"))
+		h.Put(keys[i], vals[i])
+	}
+	if N == 2 {
+		x := keys[0] ^ keys[1]
+		zzvrt.Assume(x>>uint(11-cp) == 1)
+	}
+	root := boc.NewCell()
+	zzvrt.Assert("dict-marshals", Marshal(root, h) == nil)
+	for j := 0; j < N; j++ {
+		prover, err := boc.NewMerkleProver(root)
+		zzvrt.Assert("prover-ok", err == nil)
+		kb := boc.NewBitString(12)
+		_ = kb.WriteUint(uint64(keys[j]), 12)
+		root.ResetCounters()
+		val, _, err := ProveKeyInHashmap[Uint8](prover, root, kb)
+		zzvrt.Assert("present-key-proved", err == nil)
+		zzvrt.Assert("value", val == vals[j])
+	}
+	absent := Uint12(zzvrt.NondetU16("absent") & 0xfff)
+	for i := 0; i < N; i++ {
+		zzvrt.Assume(absent != keys[i])
+	}
+	ab := boc.NewBitString(12)
+	_ = ab.WriteUint(uint64(absent), 12)
+	root.ResetCounters()
+	prover2, _ := boc.NewMerkleProver(root)
+	_, _, err := ProveKeyInHashmap[Uint8](prover2, root, ab)
+	zzvrt.Assert("absent-key-refused", err != nil)
+	zzvrt.Cover("absent-differs-in-last-bits-only", (absent^keys[0])>>4 == 0)
+	zzvrt.ObserveBool("refused", err != nil)
+}
